@@ -197,6 +197,10 @@ def run_api_job(spec):
     calls = spec['calls']
     nthreads = spec.get('threads', 1)
     events = []
+    from sim import simclock
+    ck = spec.get('clock') or {}
+    clock = simclock.SimClock(ck.get('seed', 0), ck.get('stall_p', 0.0))
+    simclock.CURRENT['clock'] = clock
     outcomes = [None] * len(calls)
     i2 = []
     flagged = set()
@@ -299,6 +303,7 @@ def run_api_job(spec):
                           explicit=sp.get('explicit'), expected_steps=sp.get('expected_steps', 20000),
                           want_log=want_sched)
         sched.events = events
+        sched.clock = clock
         from sim import simlock
         simlock.CURRENT['sched'] = sched
         per_thread = [[] for _ in range(nthreads)]
@@ -345,6 +350,9 @@ def run_api_job(spec):
         result['sched_sig'] = hashlib.sha256(repr(sched.sig).encode()).hexdigest()[:16]
         if want_sched:
             result['explicit'] = {'start': sched.log_start, 'sw': sched.switch_log, 'fin': sched.log_fin}
+    simclock.CURRENT['clock'] = None
+    result['clock_reads'] = clock.reads
+    result['clock_stalls'] = clock.stall_count
     check_i2(len(calls))
     result['outcomes'] = outcomes
     result['i2'] = i2
